@@ -419,6 +419,9 @@ func rulesC17(e *Engine, r *Report) {
 			r.Min("R17.5", "re-queues in the retrier", n, 1)
 		}
 	}
+	// ---------------------------------------------------------------- R17.9
+	r.Rule("R17.9", "a tag without a method is an http tag: `matches no non-HTTP tag` is decided from tag.Method, so before the sender builds its ignore list the default (http) has reached every configured tag - the defaulting loop over conf.Tags is left only at the end of the list and stores http wherever the method is empty, and init() reads the methods after setDefaults()")
+	e.checkMethodDefault(r, "R17.9")
 }
 
 // checkNoSharedAppend: a sender-private list that is appended to must not be
@@ -484,4 +487,78 @@ func (e *Engine) checkNoSharedAppend(r *Report, rule string) {
 		})
 	}
 	r.Min(rule, "per-sender slice fields initialised from the configuration's slices", n, 1)
+}
+
+// checkMethodDefault: a tag without a method is an http tag.  The sender's
+// wiring puts the pattern of every tag whose method is not http on the
+// store's ignore list, so the default must have reached EVERY tag before
+// that: the defaulting loop over conf.Tags visits all of them (it is left
+// only at the end of the list) and stores http wherever the method is empty
+// (F18).  Shared by R17.9, R19.10 and R03.9.
+func (e *Engine) checkMethodDefault(r *Report, rule string) {
+	http, _ := e.ConstVal("sts", "MethodHTTP")
+	var fn *ssa.Function
+	var sto ssa.Instruction
+	for _, f := range e.FuncsIn("main") {
+		for _, in := range e.findInstrs(f, "store(p0.conf.Tags[§].Method = "+http+")", false) {
+			fn, sto = f, in
+		}
+	}
+	if fn == nil {
+		r.Bad(rule, "main: an empty tag method is defaulted to http", "", "no function of package main defaults the method of the configured tags (tags without `method` are treated as not-http: their files are ignored)", 1)
+		return
+	}
+	hdr, _ := innermostLoop(sto)
+	if hdr == nil {
+		r.Bad(rule, e.ShortName(fn)+": the method default is applied in a loop over the tags", e.InstrPos(sto), "the default is stored outside a loop over conf.Tags", 1)
+		return
+	}
+	// the loop is over the whole list and is left only at its end
+	okRange := len(e.ifEdges(fn, "(§ < builtin(len)(p0.conf.Tags))")) > 0
+	early := 0
+	var where []string
+	for _, b := range fn.Blocks {
+		if b == hdr || !hdr.Dominates(b) || !reaches(b, hdr, nil) {
+			continue // not a block of the loop body
+		}
+		for _, s := range b.Succs {
+			if s != hdr && !(hdr.Dominates(s) && reaches(s, hdr, nil)) {
+				early++
+				where = append(where, fmt.Sprintf("b%d→b%d", b.Index, s.Index))
+			}
+		}
+	}
+	r.Check(okRange && early == 0, rule, e.ShortName(fn)+": the defaulting loop visits every tag (left only at the end of the list)", e.Pos(hdr.Instrs[0].Pos()),
+		"the loop that defaults the tag method stops early ("+strings.Join(where, ", ")+"): tags behind that point keep an empty method and are treated as not-http - their files are never sent", 1+early, where...)
+	// inside an iteration: empty method ⇒ http stored before the next tag
+	var backs []ssa.Instruction
+	for _, p := range hdr.Preds {
+		if hdr.Dominates(p) {
+			backs = append(backs, p.Instrs[len(p.Instrs)-1])
+		}
+	}
+	cls := labeler(C("(p0.conf.Tags[§].Method == \"\")", "empty"), I("store(p0.conf.Tags[§].Method = "+http+")", "defaulted"))
+	nb := 0
+	res := e.Flow(fn, FlowOpts{Classify: cls, Target: anyOf(backs)})
+	if res.Undecided {
+		r.Bad(rule, e.ShortName(fn)+": path classes", e.Pos(fn.Pos()), "undecided: path-world cap exceeded", res.Evals)
+	}
+	for in, ws := range res.At {
+		for _, w := range ws {
+			nb++
+			if w.Has("empty") {
+				r.Check(w.Has("defaulted"), rule, fmt.Sprintf("%s: an empty method is set to http before the next tag (b%d %s)", e.ShortName(fn), in.Block().Index, w.String()), e.InstrPos(in),
+					"a tag with an empty method is passed over without the default", 1, w.String())
+			}
+		}
+	}
+	_ = cls
+	r.Min(rule, "ways the defaulting loop moves to the next tag", nb, 1)
+	// ... and before the ignore list is built from the methods
+	if ini := e.Fn("main.(*clientApp).init"); ini != nil {
+		cl := labeler(I("call(main.(*clientApp).setDefaults)(p0)", "defaulted"))
+		n := e.Guarded(r, rule, "main.(*clientApp).init: tag methods are read after setDefaults", ini, e.instrMatch("store(§.Ignore = builtin(append)(§.Ignore, [§.Pattern]))"), cl,
+			func(l LabelSet) bool { return l.Has("defaulted") }, "setDefaults() already ran")
+		r.Min(rule, "tag-derived ignore appends in init", n, 1)
+	}
 }
